@@ -1,4 +1,5 @@
 import CCVerif.Model.Schema
+import CCVerif.Lemmas.Schema
 /-!
 # C07 — incremental schema re-analysis equals analysis from scratch after any edits
 -/
@@ -34,5 +35,88 @@ theorem incremental_pinned_cycle_counterexample :
 
 theorem incremental_repaired_cycle_example :
     (run false histCycle).report = (run false histCycle).scratch.report := by decide
+
+/-! ## the repaired algorithm: what holds and what does not
+
+`incremental_eq_scratch_statement` quantifies over *all* `load`-free histories, including those in
+which two constituents carry the same alias. `Schema` itself never checks aliases (only the
+identity manager of `RSCore` keeps them unique), and for such histories the statement is false:
+`Erase` removes the vertex of the erased constituent from the dependency graph but does not
+re-resolve the mentions of its alias, which may now denote another constituent. -/
+
+/-- `X1` twice (uids 1, 2), `D1 := X1` (resolved to uid 1), then erase uid 1: the mention now
+denotes uid 2, the graph has no edge `2 → 3`, `TopologicalOrder` analyses 3 before 2 -/
+def histDup : List Op :=
+  [.insert ⟨1, "X1", .base, .empty⟩, .insert ⟨2, "X1", .base, .empty⟩,
+   .insert ⟨3, "D1", .term, .union ["X1"]⟩, .erase 1]
+
+theorem incremental_dup_alias_counterexample :
+    (run false histDup).report ≠ (run false histDup).scratch.report ∧
+    (run false histDup).depEdges ≠ (run false histDup).scratch.depEdges := by decide
+
+/-- the statement as first formulated is false (for the model, and — the model being a
+transcription — for `Schema` used without `RSCore`'s alias discipline) -/
+theorem incremental_eq_scratch_statement_false : ¬ incremental_eq_scratch_statement := by
+  intro h
+  refine incremental_dup_alias_counterexample.1 (h histDup ?_).1
+  intro op hop c e
+  subst e
+  simp [histDup] at hop
+
+/-- **C07.** After every admissible history (no `load`; whenever a constituent is erased, no
+other constituent carries its alias) the incremental state reports the same status and type per
+constituent and the same dependency edges as the analysis from scratch of the same content. -/
+theorem incremental_eq_scratch (ops : List Op) (ha : AdmissibleFrom {} ops) :
+    (run false ops).report = (run false ops).scratch.report ∧
+    (run false ops).depEdges = (run false ops).scratch.depEdges :=
+  (WF.run ha).observables
+
+/-- the same for histories along which aliases stay pairwise distinct — the discipline `RSCore`
+enforces; this is `incremental_eq_scratch_statement` with that one extra hypothesis -/
+theorem incremental_eq_scratch_of_distinct_aliases (ops : List Op)
+    (hl : ∀ op ∈ ops, ∀ c, op ≠ .load c)
+    (hd : ∀ k, AliasesDistinct (run false (ops.take k))) :
+    (run false ops).report = (run false ops).scratch.report ∧
+    (run false ops).depEdges = (run false ops).scratch.depEdges :=
+  incremental_eq_scratch ops (admissibleFrom_of_distinct ops {} hl hd)
+
+/-- the graph-currency part on its own -/
+theorem depEdges_eq_scratch (ops : List Op) (ha : AdmissibleFrom {} ops) :
+    (run false ops).depEdges = (run false ops).scratch.depEdges :=
+  (incremental_eq_scratch ops ha).2
+
+/-- what the incremental state holds, declaratively: a constituent is recorded with type `t`
+iff `t` is derivable by the typing rules (`Typed`: least solution), its status is `verified` iff
+it has a type, and the dependency graph is current -/
+theorem incremental_declarative (ops : List Op) (ha : AdmissibleFrom {} ops) :
+    (∀ u t, ((run false ops).infoFor u).ty = some t ↔ Typed (run false ops).store u t) ∧
+    (∀ c ∈ (run false ops).store, ((run false ops).infoFor c.uid).status =
+      if ((run false ops).infoFor c.uid).ty.isSome then .verified else .incorrect) ∧
+    GraphCur (run false ops).store (run false ops).graph := by
+  have h := WF.run ha
+  exact ⟨fun u t => ⟨h.sync.sound u t, h.sync.complete u t trivial⟩,
+    fun c hc => h.sync.status c.uid (mem_uids.2 ⟨c, hc, rfl⟩), h.cur⟩
+
+/-! non-vacuity: the histories above are admissible (and keep aliases distinct); a history with
+`erase`, `setAlias` and `substitute`; the counterexample history is not admissible -/
+
+example : AdmissibleFrom {} histSelf := by decide
+example : AdmissibleFrom {} histCycle := by decide
+
+def histMixed : List Op :=
+  [.insert ⟨1, "X1", .base, .empty⟩, .insert ⟨2, "D1", .term, .union ["X1"]⟩,
+   .insert ⟨3, "D2", .term, .union ["D1", "X1"]⟩, .setDef 2 (.union ["D2"]),
+   .setAlias 1 "X2" true, .substitute [("D1", "D3")], .setDef 2 (.union ["X2"]), .erase 1,
+   .updateState]
+
+example : AdmissibleFrom {} histMixed := by decide
+example : ∀ k, AliasesDistinct (run false (histMixed.take k)) := by
+  intro k
+  by_cases hk : k < 10
+  · have h : ∀ k ∈ List.range 10, AliasesDistinct (run false (histMixed.take k)) := by decide
+    exact h k (List.mem_range.2 hk)
+  · rw [List.take_of_length_le (by simp only [histMixed, List.length_cons, List.length_nil]; omega)]
+    decide
+example : ¬ AdmissibleFrom {} histDup := by decide
 
 end CCVerif.Schema
